@@ -62,11 +62,13 @@ ob("print_pos_r3_65536_256", "C19", bound="rank <= 3, strides {65536,256,1} / {2
 
 prop("C19",
      residual="decided: array_diff's verdict for the eight integer number types under hdiff's default options (no -e/-t/-p/-S), "
-              "no fill value, at most 16 (thorough tier: 32) elements per call and rank <= 2; print_pos index decomposition for rank <= 3 and three fixed stride vectors.  NOT decided: "
-              "float32/float64 comparison and the tolerance options (-e limit, -t, -p relative), fill-value handling, statistics; "
-              "object matching between the two files (hdiff_table/hdiff_list/match), Vdata, GR palette and attribute comparison "
-              "(hdiff_vs.c, hdiff_gr.c, hdiff_gattr.c), the hyperslab strip-mining of diff_sds, the exit status of main(); "
-              "everything about hdp dump formatting and hdfimport (text I/O: no contract relates printed text to API values)",
+              "no fill value, at most 16 (thorough tier: 32) elements per call and rank <= 2; print_pos index decomposition for rank <= 3 and three fixed stride vectors; "
+              "(c19_tools_ext.py) float32/float64 comparison for <= 2 finite elements without tolerance; diff_sds hyperslab glue, diff_gr component "
+              "count and match() pairing over enumerated small object lists (three OPEN findings K1-K3 there); the conversion and promoted "
+              "argument each hdp fmt* formatter hands to fprintf; hdfimport's per-input format state (gtype..gmaxmin proved, process() bounded to 2 inputs).  "
+              "NOT decided: the tolerance options (-e limit, -t, -p relative), NaN/infinity, fill-value handling, statistics; Vdata, palette and "
+              "attribute comparison (hdiff_vs.c, hdiff_gattr.c), hdiff_list traversal, the exit status of main(); the TEXT hdp prints "
+              "(the C library's rendering of a conversion is not modelled) and hdfimport's data conversion",
      assumptions=["A-HDIFF-OPTS: err_limit == 0.0, err_rel == 0.0, statistics == 0, fill1 == fill2 == NULL (hdiff's defaults; SDS without fill value)",
                   "A-DEBUGFILE: if the DEBUG environment variable is set, fopen(\"hdiff.debug\") succeeds (array_diff does not check it)",
                   "A-PRINTF: printf/fprintf have no effect on program state"])
